@@ -720,6 +720,9 @@ func Run(r *monitor.Run) {
 		_ = i
 	}
 	relativePath(r)
+	for i, k := range kinds {
+		lastAccountDeleted(r, k, 1+i%2)
+	}
 	r.Parallel(r.Pick(2, 8), 4, func(i int) { concurrentAdmins(r, []string{auth.Plain, auth.SHA256}[i%2], i) })
 	r.Sample(map[string]any{"example_attempt": Attempt{V: 5, HasUser: true, HasPass: true, User: "alice", PassDesc: "trailing_byte", Clean: true}})
 }
